@@ -184,6 +184,23 @@ def enclosing_index(tree):
     return spans
 
 
+def try_regions(tree):
+    """[(handler line ranges, else line range)] of every try statement with handlers and an else block"""
+    out = []
+    for n in ast.walk(tree):
+        if isinstance(n, (ast.Try, getattr(ast, 'TryStar', ast.Try))) and n.handlers and n.orelse:
+            out.append(([(h.lineno, h.end_lineno) for h in n.handlers],
+                        (n.orelse[0].lineno, n.orelse[-1].end_lineno)))
+    return out
+
+
+def spans_handler_and_else(regions, lines):
+    for hs, (e0, e1) in regions:
+        if any(e0 <= l <= e1 for l in lines) and any(h0 <= l <= h1 for h0, h1 in hs for l in lines):
+            return True
+    return False
+
+
 def kinds_at(spans, line):
     return sorted(set(k for a, b, k in spans if a <= line <= b)) or ['module-level']
 
@@ -245,7 +262,9 @@ def build_gclass(part, rng, bdir, arg):
     from supp import assistant
     b = Batch()
     for j in range(arg.get('multiattr', 0)):
-        files, reqs = gen_multiattr(rng)
+        files, reqs, forms = gen_multiattr(rng)
+        for f in forms:
+            part.hist('multiattr_assignment_shapes', f)
         pid = 'm%d' % j
         root = os.path.join(bdir, pid)
         write_files(root, files)
@@ -309,6 +328,56 @@ def build_gclass(part, rng, bdir, arg):
 MA_VALUES = ('1', "'s'", '[]', '{}', 'None', '(1, 2)', '2.5', 'True', 'set()', 'object()')
 
 
+MA_FORMS = ('plain', 'plain', 'if', 'elif', 'try', 'try-else', 'try-else', 'try-full', 'try-full', 'try-finally',
+            'for-else', 'while-else', 'with', 'def-then-assign', 'assign-then-def')
+
+
+def assign_stmts(rng, recv, attrs, ind, depth, forms, same=None):
+    """statements assigning recv.<attr> in every clause of one randomly chosen compound statement (try with handlers,
+    else and finally; loops with else; with; a nested function defined before / after a plain assignment), clauses
+    possibly holding a further compound statement."""
+    a = same or rng.choice(attrs)
+    i2 = ind + '    '
+
+    def asg(i):
+        return [i + '%s.%s = %s' % (recv, a if rng.random() < 0.8 else rng.choice(attrs), rng.choice(MA_VALUES))]
+
+    def sub(i):
+        if depth > 0 and rng.random() < 0.3:
+            return assign_stmts(rng, recv, attrs, i, depth - 1, forms, a)
+        return asg(i)
+    form = rng.choice(MA_FORMS)
+    forms.append(form)
+    if form == 'plain':
+        return asg(ind)
+    if form == 'if':
+        return [ind + 'if flag:'] + sub(i2) + [ind + 'else:'] + sub(i2)
+    if form == 'elif':
+        return [ind + 'if flag:'] + sub(i2) + [ind + 'elif flag is None:'] + sub(i2) + [ind + 'else:'] + sub(i2)
+    if form == 'try':
+        return [ind + 'try:'] + sub(i2) + [ind + 'except ValueError:'] + sub(i2)
+    if form == 'try-else':
+        out = [ind + 'try:'] + (sub(i2) if rng.random() < 0.5 else [i2 + 'flag()'])
+        out += [ind + 'except ValueError:'] + sub(i2)
+        if rng.random() < 0.4:
+            out += [ind + 'except KeyError:'] + sub(i2)
+        return out + [ind + 'else:'] + sub(i2)
+    if form == 'try-full':
+        return ([ind + 'try:'] + sub(i2) + [ind + 'except ValueError:'] + sub(i2) + [ind + 'except KeyError:'] + sub(i2) +
+                [ind + 'else:'] + sub(i2) + [ind + 'finally:'] + sub(i2))
+    if form == 'try-finally':
+        return [ind + 'try:'] + sub(i2) + [ind + 'finally:'] + sub(i2)
+    if form == 'for-else':
+        return [ind + 'for _i in ():'] + sub(i2) + [ind + 'else:'] + sub(i2)
+    if form == 'while-else':
+        return [ind + 'while flag:'] + sub(i2) + [i2 + 'flag = None', ind + 'else:'] + sub(i2)
+    if form == 'with':
+        return [ind + "with open('f') as _f:"] + sub(i2) + asg(ind)
+    if form == 'def-then-assign':
+        return [ind + 'def _inner():'] + sub(i2) + asg(ind)
+    return asg(ind) + [ind + 'def _later():'] + sub(i2) + asg(ind)
+
+
 def gen_multiattr(rng):
     """small class chains in which the same instance attribute is assigned in several methods (plainly, under
     if/else, in try/except), in the class and in its bases, possibly across two modules.
@@ -319,6 +388,7 @@ def gen_multiattr(rng):
     mods = {'hier.py': [], 'base.py': []}
     names = []
     based = []
+    forms = []
     for k in range(ncls):
         cname = 'B%d' % k
         target = 'base.py' if (two and k == 0) else 'hier.py'
@@ -335,16 +405,7 @@ def gen_multiattr(rng):
         for m in range(rng.randint(2, 4)):
             lines.append('    def m%d_%d(self, flag=None):' % (k, m))
             for _ in range(rng.randint(1, 3)):
-                a = rng.choice(attrs)
-                form = rng.random()
-                if form < 0.55:
-                    lines.append('        self.%s = %s' % (a, rng.choice(MA_VALUES)))
-                elif form < 0.8:
-                    lines += ['        if flag:', '            self.%s = %s' % (a, rng.choice(MA_VALUES)),
-                              '        else:', '            self.%s = %s' % (a, rng.choice(MA_VALUES))]
-                else:
-                    lines += ['        try:', '            self.%s = %s' % (a, rng.choice(MA_VALUES)),
-                              '        except ValueError:', '            self.%s = %s' % (rng.choice(attrs), rng.choice(MA_VALUES))]
+                lines += assign_stmts(rng, 'self', attrs, '        ', 1, forms)
             lines.append('')
         mods[target].append(lines)
         names.append(cname)
@@ -355,7 +416,14 @@ def gen_multiattr(rng):
     if two:
         head = ['import base', 'from base import B0', '']
     body = head + [l for blk in mods['hier.py'] for l in blk + ['']]
-    body += ['obj = %s()' % last] + ['obj.%s' % a for a in attrs]
+    body += ['flag = None', 'obj = %s()' % last]
+    if rng.random() < 0.5:      # a function defined before the module-level assignments, analysed after them
+        body += ['def setup(flag=None):'] + assign_stmts(rng, 'obj', attrs, '    ', 1, forms) + ['']
+    for _ in range(rng.randint(1, 3)):
+        body += assign_stmts(rng, 'obj', attrs, '', 1, forms)
+    if rng.random() < 0.3:
+        body += ['def teardown(flag=None):'] + assign_stmts(rng, 'obj', attrs, '    ', 1, forms) + ['']
+    body += ['obj.%s' % a for a in attrs]
     files = {'hier.py': '\n'.join(body) + '\n'}
     if two:
         files['base.py'] = '\n'.join(l for blk in mods['base.py'] for l in blk + ['']) + '\n'
@@ -364,7 +432,7 @@ def gen_multiattr(rng):
         st = line.strip()
         if re.fullmatch(r'(self|obj)\.[a-d]', st):
             reqs.append(('hier.py', files['hier.py'], (ln, len(line)), st))
-    return files, reqs
+    return files, reqs, forms
 
 
 # --- generated modules for two regions the other generators hardly reach ---------------------------------------
@@ -861,11 +929,15 @@ def compare_batch(part, b, passes, runs, spans_of):
                         part.count('alternative_lists_3+')
                 sp = spans_of(req)
                 if sp is not None:
+                    sp, regions = sp
                     ks = set()
                     for x in nl:
-                        for e in x:
-                            if e.get('file') == req['filename'] and e.get('loc'):
-                                ks.update(kinds_at(sp, e['loc'][0]))
+                        own = [e['loc'][0] for e in x if e.get('file') == req['filename'] and e.get('loc')]
+                        for l in own:
+                            ks.update(kinds_at(sp, l))
+                        if spans_handler_and_else(regions, own):
+                            part.count('alternative_lists_spanning_except_handler_and_try_else')
+                            part.hist('lists_spanning_handler_and_else', what or '?')
                     for k in ks:
                         part.hist('alternative_bound_inside', k)
                 part.hist('multi_alternative_what', (m.get('cand') or {}).get('what', '?').split(':')[0])
@@ -998,7 +1070,8 @@ def run_batch(part, rng, batch, bdir, arg, tag):
             return None
         if t not in cache:
             try:
-                cache[t] = enclosing_index(ast.parse(b.texts[t]))
+                tree = ast.parse(b.texts[t])
+                cache[t] = (enclosing_index(tree), try_regions(tree))
             except (SyntaxError, ValueError, RecursionError):
                 cache[t] = None
         return cache[t]
@@ -1059,7 +1132,7 @@ def main(run):
         for n in range(run.pick(10, 40)):
             args.append({'kind': 'gprog', 'index': n, 'target': 200, 'max_cases': 70})
         for n in range(run.pick(6, 14)):
-            args.append({'kind': 'gclass', 'index': n, 'target': 900, 'max_cases': 14, 'multiattr': 30})
+            args.append({'kind': 'gclass', 'index': n, 'target': 900, 'max_cases': 14, 'multiattr': 12})
         for n in range(run.pick(4, 12)):
             args.append({'kind': 'gextra', 'index': n, 'multiclass': 10, 'inverted': 14})
         for a in args:
@@ -1075,6 +1148,7 @@ def main(run):
                  'same_process_pairs_compared', 'ordering_predicate_evaluations', 'module_member_requests',
                  'requests_attribute_defined_by_2+_alternative_classes', 'requests_import_of_multiply_bound_member',
                  'multi_alternative_requests_with_inverted_visibility_order',
+                 'alternative_lists_spanning_except_handler_and_try_else',
                  'module_member_requests_with_multiply_bound_export', 'assist_requests', 'lint_requests'),
         assumptions=[
             'every process that evaluates a batch sees the same request sequence on Project objects created at first use, '
